@@ -229,6 +229,21 @@ def loop_tail_shapes(rng, n, yields=False, family=None):
             lambda: [N("wait", p=N("lit", bs=b"#", form="s")), N("break", label=None)],
             lambda: [N("wait", p=N("lit", bs=b"#", form="s")), N("if", branches=[(cond(), [N("break", label=None)])], orelse=None)],
         ]
+        if family == "break-in-block":
+            # a block inside a loop, one path of which ends in an unconditional break, followed by actions in the loop body: the
+            # actions after the block belong to the paths that stay in the loop only
+            lit = lambda b: N("lit", bs=b, form="s")
+            brk = lambda: N("break", label=None)
+            blk = rng.choice([
+                lambda: N("case", greedy=False, clauses=[N("clause", preds=[lit(b"d")], body=[L(b"b"), brk()], prio=None), N("clause", preds=[lit(b"q")], body=rng.choice([[], [L(b"r")]]), prio=None)]),
+                lambda: N("try", body=[L(b"db"), brk()], reasons=None, handler=[L(b"q")]),
+                lambda: N("case", greedy=False, clauses=[N("clause", preds=[lit(b"d")], body=[brk()], prio=None), N("clause", preds=[lit(b"q"), "else"], body=[N("match", p=N("rx", tree=("any",), binary=False))], prio=None)]),
+                lambda: N("try", body=[N("case", greedy=False, clauses=[N("clause", preds=[lit(b"d")], body=[L(b"b"), brk()], prio=None), N("clause", preds=[lit(b"q")], body=[], prio=None)])], reasons=["nomatch"], handler=[L(b"x")])])()
+            body = [L(b"<"), N("loop", label=None, body=[blk] + actions()), N("hook", name="t"), L(b"!")]
+            outs = [N("out", name="n", typ="int", signed=None, width=None, default=0), N("out", name="m", typ="int", signed=None, width=None, default=0),
+                    N("out", name="s", typ="str", size=3, default=None)]
+            out.append(N("prog", outs=outs, hooks=["h", "g", "t"], fcodes=[], ycodes=ycodes, macros=[], body=body, args=["-fyield-support"] if yields else []))
+            continue
         if family == "yield-chain":
             # a yield that ends a block, directly followed by another yield / action after the block: the states behind a yield only hold
             # the actions that follow it (they look like removable dummies to the optimiser)
@@ -326,6 +341,7 @@ def run(ctx: Ctx):
     acc_n += add_shapes(ctx, rng, pool, loop_tail_shapes(rng, 24 if quick else 240) + loop_tail_shapes(rng, 12 if quick else 120, yields=True), "loop_tail_shapes_accepted")
     acc_n += add_shapes(ctx, rng, pool, loop_tail_shapes(rng, 8 if quick else 80, yields=True, family="append-yield"), "append_yield_shapes_accepted", levels=("-O0", "-O2", "-O3", "-O3"))
     acc_n += add_shapes(ctx, rng, pool, loop_tail_shapes(rng, 10 if quick else 100, yields=True, family="yield-chain"), "yield_chain_shapes_accepted", levels=("-O0", "-O3", "-O3"))
+    acc_n += add_shapes(ctx, rng, pool, loop_tail_shapes(rng, 10 if quick else 100, family="break-in-block"), "break_in_block_shapes_accepted")
     ctx.cov["programs_accepted"] = acc_n
     ctx.extra["node_kinds_in_accepted"] = kinds
     run_pool(ctx, rng, quick, pool, "c01")
